@@ -23,7 +23,9 @@ CheckBad(e, cr, fsAfter) ==
        (IF ToSet(e.reported) # {p \in PidsOf(e.batch) : Fault(out[p], cr)} THEN {<<l + 1, "ReportedSet">>} ELSE {})
   \cup (IF \E j \in DOMAIN e.reported : e.reported[j] \in PidsOf(e.batch) /\ Fault(out[e.reported[j]], cr)
                                          /\ e.classes[j] \notin MsgClasses(out[e.reported[j]], cr) THEN {<<l + 1, "Message">>} ELSE {})
-  \cup (IF ToSet(e.saved) # {x[2] : x \in {y \in fsAfter : y[1] = "saved"}} THEN {<<l + 1, "SavedDirs">>} ELSE {})
+  \* (only the batch's own programs: in pool mode another check may be running concurrently and has saved directories already)
+  \cup (IF ToSet(e.saved) \cap PidsOf(e.batch) # {x[2] : x \in {y \in fsAfter : y[1] = "saved" /\ y[2] \in PidsOf(e.batch)}}
+        THEN {<<l + 1, "SavedDirs">>} ELSE {})
 Chk(e) == LET cr == Scen.crashes[e.batch] IN
   IF ENABLED Check(e.batch, cr)
   THEN Check(e.batch, cr) /\ bad' = bad \cup CheckBad(e, cr, fs')
